@@ -285,8 +285,10 @@ def generate(prop, seed, tier):
             rng_ = SHAPES[f["shape"]][4]
             truth.append([core.r6(S.uni(a, b)) for a, b in rng_])
         n = S.int(max(3, n_own_max + 1), 20)
-        if linear_run and S.chance(0.08):
-            n = max(2, n_own_max)  # exactly as many support points as parameters: the fit interpolates
+        if linear_run and S.chance(0.3 if yscale >= 1e3 else 0.08):
+            # exactly as many support points as parameters: the fit interpolates (more often on large
+            # data, where the interpolating coefficients differ by orders of magnitude)
+            n = max(2, n_own_max)
         noise = S.wpick([(0.0, 2), (0.001, 2), (0.02, 3), (0.08, 2)])
         rnd = {
             "truth": truth,
